@@ -71,7 +71,7 @@ class StmtMixin:
         return m(st, s)
 
     def region_of(self, s):
-        if not self.reg.regions or not isinstance(s, (ast.If, ast.For, ast.While, ast.Try, ast.Assign)):
+        if not self.reg.regions or not isinstance(s, (ast.If, ast.For, ast.While, ast.Try, ast.Assign, ast.AnnAssign)):
             return None
         fi = st_fi = None
         key = self.region_index.get(id(s))
@@ -268,6 +268,11 @@ class StmtMixin:
                 return VList(v.t, kind.elem)
         if isinstance(kind, KRef) and isinstance(v, VRef):
             return v
+        if isinstance(kind, KList) and isinstance(v, VAny):
+            # an opaque value passed where a list is declared: viewed as a list of the declared element kind
+            # (an unchecked cast, recorded for the evidence)
+            self.assumed_casts = getattr(self, "assumed_casts", set()) | {f"{self.cur_func_name}: opaque value used as {kind!r}"}
+            return VList(v.t, kind.elem)
         if isinstance(kind, KPrim) and kind.name.startswith("Any") and isinstance(v, VPy):
             # a python-level callable stored in an opaque field: a stable token per callable
             import re as _re
@@ -349,6 +354,22 @@ class StmtMixin:
             return st
         if isinstance(test, ast.Name):
             return set_some(test.id) if positive else st
+        if isinstance(test, ast.BoolOp) and isinstance(test.op, ast.And) and positive:
+            for sub in test.values:
+                st = self.narrow(st, sub, True)
+            return st
+        if isinstance(test, ast.Call) and isinstance(test.func, ast.Name) and test.func.id == "isinstance" and positive \
+                and len(test.args) == 2 and isinstance(test.args[0], ast.Name) and isinstance(test.args[1], ast.Name) \
+                and test.args[1].id == "list":
+            v = st.locals.get(test.args[0].id)
+            if isinstance(v, VOpt):
+                v = v.inner
+            if isinstance(v, VAny):
+                # an opaque value known to be a list on this path: a list of opaque elements
+                s2 = st.copy()
+                s2.locals[test.args[0].id] = VList(v.t, K_ANY)
+                return s2
+            return st
         if isinstance(test, ast.UnaryOp) and isinstance(test.op, ast.Not):
             return self.narrow(st, test.operand, not positive)
         if isinstance(test, ast.Compare) and len(test.ops) == 1 and isinstance(test.left, ast.Name) \
